@@ -2,4 +2,5 @@
 set -eu
 out="${VERIF_OUT:-build/bin/c06}"
 go build -tags verif -overlay "$VERIF_OVERLAY" -o "$out" ./cmd/c06
+go build -race -tags verif -overlay "$VERIF_OVERLAY" -o "$out-race" ./cmd/c06
 exec bin/buildcoop.sh c06 "$out-coop"
